@@ -36,20 +36,23 @@ Record pobj := {
   ohash   : option (Z * option Z);  (* _hash: None or the hashed identity *)
   oshot   : nat;             (* depth of active "with p.oneshot():" blocks; > 0 = the memoize caches exist *)
   ocppid  : option Z;        (* Process._cache[ppid]: value memoized by Process.ppid() inside oneshot *)
-  ocstat  : option (Z * Z)   (* _proc._cache[_parse_stat_file]: (starttime, ppid) of the memoized stat record *)
+  ocstat  : option (Z * Z);  (* _proc._cache[_parse_stat_file]: (starttime, ppid) of the memoized stat record *)
+  oexit   : bool             (* _exitcode is cached (wait() returned; for a process that is not our child: None) *)
 }.
 
 Definition with_gone (b : bool) (x : pobj) : pobj :=
-  {| opid := opid x; ostart := ostart x; ogone := b; oreused := oreused x; octime := octime x; ohash := ohash x; oshot := oshot x; ocppid := ocppid x; ocstat := ocstat x |}.
+  {| opid := opid x; ostart := ostart x; ogone := b; oreused := oreused x; octime := octime x; ohash := ohash x; oshot := oshot x; ocppid := ocppid x; ocstat := ocstat x; oexit := oexit x |}.
 Definition with_reused (b : bool) (x : pobj) : pobj :=
-  {| opid := opid x; ostart := ostart x; ogone := ogone x; oreused := b; octime := octime x; ohash := ohash x; oshot := oshot x; ocppid := ocppid x; ocstat := ocstat x |}.
+  {| opid := opid x; ostart := ostart x; ogone := ogone x; oreused := b; octime := octime x; ohash := ohash x; oshot := oshot x; ocppid := ocppid x; ocstat := ocstat x; oexit := oexit x |}.
 Definition with_ctime (c : option Z) (x : pobj) : pobj :=
-  {| opid := opid x; ostart := ostart x; ogone := ogone x; oreused := oreused x; octime := c; ohash := ohash x; oshot := oshot x; ocppid := ocppid x; ocstat := ocstat x |}.
+  {| opid := opid x; ostart := ostart x; ogone := ogone x; oreused := oreused x; octime := c; ohash := ohash x; oshot := oshot x; ocppid := ocppid x; ocstat := ocstat x; oexit := oexit x |}.
 Definition with_hash (h : option (Z * option Z)) (x : pobj) : pobj :=
-  {| opid := opid x; ostart := ostart x; ogone := ogone x; oreused := oreused x; octime := octime x; ohash := h; oshot := oshot x; ocppid := ocppid x; ocstat := ocstat x |}.
+  {| opid := opid x; ostart := ostart x; ogone := ogone x; oreused := oreused x; octime := octime x; ohash := h; oshot := oshot x; ocppid := ocppid x; ocstat := ocstat x; oexit := oexit x |}.
+Definition with_exit (b : bool) (x : pobj) : pobj :=
+  {| opid := opid x; ostart := ostart x; ogone := ogone x; oreused := oreused x; octime := octime x; ohash := ohash x; oshot := oshot x; ocppid := ocppid x; ocstat := ocstat x; oexit := b |}.
 (* oneshot state: depth and the two memoize caches *)
 Definition with_shot (n : nat) (p : option Z) (t : option (Z * Z)) (x : pobj) : pobj :=
-  {| opid := opid x; ostart := ostart x; ogone := ogone x; oreused := oreused x; octime := octime x; ohash := ohash x; oshot := n; ocppid := p; ocstat := t |}.
+  {| opid := opid x; ostart := ostart x; ogone := ogone x; oreused := oreused x; octime := octime x; ohash := ohash x; oshot := n; ocppid := p; ocstat := t; oexit := oexit x |}.
 
 Definition ident (x : pobj) : Z * option Z := (opid x, ostart x).
 Definition opt_eqb (a b : option Z) : bool :=
@@ -58,22 +61,34 @@ Definition opt_eqb (a b : option Z) : bool :=
 Definition obj_eq (a b : pobj) : bool := (opid a =? opid b) && opt_eqb (ostart a) (ostart b).
 Definition ident_eqb (a b : Z * option Z) : bool := (fst a =? fst b) && opt_eqb (snd a) (snd b).
 
+(* a process_iter() generator: nothing runs before the first next(); then the local copy of the cache
+   and the list it is walking *)
+Record gen := {
+  g_started : bool;
+  g_done    : bool;
+  g_ls      : list (Z * option nat);   (* rest of sorted(pmap.items() + new pids): (pid, cached object or None) *)
+  g_pm      : list (Z * nat)           (* its local pmap *)
+}.
+
 (* module globals of psutil/__init__.py and psutil/_pslinux.py *)
 Record mstate := {
   objs   : list pobj;          (* the Process objects the caller holds, in order of creation *)
   bootc  : option Z;           (* _pslinux.BOOT_TIME *)
   pmap   : list (Z * nat);     (* psutil._pmap : pid -> object *)
-  reused : list Z              (* psutil._pids_reused *)
+  reused : list Z;             (* psutil._pids_reused *)
+  gens   : list gen            (* process_iter() generators the caller has created and not exhausted *)
 }.
 Definition with_objs (l : list pobj) (m : mstate) : mstate :=
-  {| objs := l; bootc := bootc m; pmap := pmap m; reused := reused m |}.
+  {| objs := l; bootc := bootc m; pmap := pmap m; reused := reused m; gens := gens m |}.
 Definition with_bootc (b : option Z) (m : mstate) : mstate :=
-  {| objs := objs m; bootc := b; pmap := pmap m; reused := reused m |}.
+  {| objs := objs m; bootc := b; pmap := pmap m; reused := reused m; gens := gens m |}.
 Definition with_pmap (p : list (Z * nat)) (m : mstate) : mstate :=
-  {| objs := objs m; bootc := bootc m; pmap := p; reused := reused m |}.
+  {| objs := objs m; bootc := bootc m; pmap := p; reused := reused m; gens := gens m |}.
 Definition with_reusedset (r : list Z) (m : mstate) : mstate :=
-  {| objs := objs m; bootc := bootc m; pmap := pmap m; reused := r |}.
-Definition mstate0 : mstate := {| objs := []; bootc := None; pmap := []; reused := [] |}.
+  {| objs := objs m; bootc := bootc m; pmap := pmap m; reused := r; gens := gens m |}.
+Definition with_gens (g : list gen) (m : mstate) : mstate :=
+  {| objs := objs m; bootc := bootc m; pmap := pmap m; reused := reused m; gens := g |}.
+Definition mstate0 : mstate := {| objs := []; bootc := None; pmap := []; reused := []; gens := [] |}.
 
 (* ---------------------------------------------------------------- system calls psutil issues *)
 Inductive sysc :=
@@ -111,12 +126,17 @@ Inductive call :=
 | Ppid (o : nat)
 | CreateTime (o : nat)
 | BootTime                      (* psutil.boot_time() *)
-| ProcIter.                     (* list(psutil.process_iter()) *)
+| ProcIter                      (* list(psutil.process_iter()) *)
+| Wait (o : nat)                (* o.wait(timeout=0) -- the process is not a child of the caller *)
+| IterStart                     (* g = psutil.process_iter(): a generator the caller keeps *)
+| IterNext (g : nat).           (* next(g) *)
 
 Inductive res :=
 | RNone | RBool (b : bool) | RInt (n : Z) | RObj (i : nat) | RObjs (l : list nat)
 | RCenti (n : Z)                (* seconds x 100, exact *)
-| RHash (eq stable : bool).
+| RHash (eq stable : bool)
+| RGen (g : nat)                (* a new generator *)
+| RStop.                        (* StopIteration *)
 
 Definition SIGKILL := 9. Definition SIGTERM := 15. Definition SIGCONT := 18. Definition SIGSTOP := 19.
 Definition PID_MAX := 2147483648.   (* _Py_PARSE_PID is a C int *)
@@ -164,13 +184,13 @@ Definition new_obj (pid : Z) : outcome pobj :=
        | Some (st, _, _) =>
          Val {| opid := pid; ostart := if kv_ctime_ok K pid then Some st else None;
                 ogone := false; oreused := false; octime := None; ohash := None;
-                oshot := O; ocppid := None; ocstat := None |}
+                oshot := O; ocppid := None; ocstat := None; oexit := false |}
        end.
 
 (* Popen.__init__ -> _init(pid, _ignore_nsp=True): a vanished child is not an error *)
 Definition orphan_obj (pid : Z) : pobj :=
   {| opid := pid; ostart := None; ogone := true; oreused := false; octime := None; ohash := None;
-     oshot := O; ocppid := None; ocstat := None |}.
+     oshot := O; ocppid := None; ocstat := None; oexit := false |}.
 Definition new_popen (pid : Z) : outcome pobj :=
   if pid <? 0 then Exc ValueError
   else if PID_MAX <=? pid then Exc NoSuchProcess
@@ -367,7 +387,7 @@ Definition proc_iter (m : mstate) : mstate * outcome res :=
     let pm1 := filter (fun e => memz (fst e) a) (pmap m) in                 (* gone_pids removed *)
     let pm2 := filter (fun e => negb (memz (fst e) (reused m))) pm1 in     (* _pids_reused popped *)
     let '(os, pm, r) := iter_loop a newp (objs m) pm2 [] in
-    ({| objs := os; bootc := bootc m; pmap := pm; reused := [] |},
+    ({| objs := os; bootc := bootc m; pmap := pm; reused := []; gens := gens m |},
      match r with Val l => Val (RObjs l) | Exc e => Exc e | OutOfModel => OutOfModel end)
   end.
 
@@ -402,8 +422,80 @@ Definition proc_iter_nostale (m : mstate) : mstate * outcome res :=
     let pm1 := filter (fun e => memz (fst e) a) (pmap m) in
     let pm2 := filter (fun e => negb (memz (fst e) (reused m))) pm1 in
     let '(os, pm, r) := iter_loop_nostale a newp (objs m) pm2 [] in
-    ({| objs := os; bootc := bootc m; pmap := pm; reused := [] |},
+    ({| objs := os; bootc := bootc m; pmap := pm; reused := []; gens := gens m |},
      match r with Val l => Val (RObjs l) | Exc e => Exc e | OutOfModel => OutOfModel end)
+  end.
+
+(* Process.wait(timeout=0) for a process that is not our child (_psposix.wait_pid polls pid_exists):
+   still there (zombie included) -> TimeoutExpired; gone -> None, cached in _exitcode *)
+Definition do_wait (x : pobj) : pobj * outcome res :=
+  if oexit x then (x, Val RNone)
+  else if kexists (opid x) then (x, Exc TimeoutExpired)
+  else (with_exit true x, Val RNone).
+
+(* one resumption of a process_iter() generator: walk the list until something is yielded.
+   result: rest of the list, objects, local pmap, Val (Some i) = yielded object i / Val None = exhausted *)
+Definition pm_del (p : Z) (pm : list (Z * nat)) : list (Z * nat) := filter (fun e => negb (fst e =? p)) pm.
+Fixpoint gen_loop (ls : list (Z * option nat)) (os : list pobj) (pm : list (Z * nat))
+  : list (Z * option nat) * list pobj * list (Z * nat) * outcome (option nat) :=
+  match ls with
+  | [] => ([], os, pm, Val None)
+  | (p, c) :: rest =>
+    match (match c with
+           | Some i => if match nth_error os i with Some x => oreused x | None => false end then None else Some i
+           | None => None
+           end) with
+    | Some i => (rest, os, pm, Val (Some i))                     (* a cached instance, yielded as it is *)
+    | None =>                                                    (* new PID, or stale cached instance: add(pid) *)
+      match new_obj p with
+      | Val y => (rest, os ++ [y], pm_del p pm ++ [(p, length os)], Val (Some (length os)))
+      | Exc NoSuchProcess => gen_loop rest os (pm_del p pm)      (* except NoSuchProcess: remove(pid) *)
+      | Exc e => (rest, os, pm, Exc e)
+      | OutOfModel => (rest, os, pm, OutOfModel)
+      end
+    end
+  end.
+
+Definition gen0 : gen := {| g_started := false; g_done := false; g_ls := []; g_pm := [] |}.
+Definition gen_dead : gen := {| g_started := true; g_done := true; g_ls := []; g_pm := [] |}.
+
+(* next(g) *)
+Definition iter_next (m : mstate) (g : nat) : mstate * outcome res :=
+  match nth_error (gens m) g with
+  | None => (m, OutOfModel)
+  | Some ge =>
+    if g_done ge then (m, Val RStop)
+    else
+      (* first next(): copy the cache, list the PIDs, drop gone and reused PIDs, empty _pids_reused *)
+      let start : option (mstate * list (Z * option nat) * list (Z * nat)) :=
+        if g_started ge then Some (m, g_ls ge, g_pm ge)
+        else
+          let a := sort_uniq (kv_pids K) in
+          match a with
+          | [] => None                                          (* pids(): ret[0] -> IndexError *)
+          | _ =>
+            let b := map fst (pmap m) in
+            let pm1 := filter (fun e => memz (fst e) a) (pmap m) in
+            let pm2 := filter (fun e => negb (memz (fst e) (reused m))) pm1 in
+            let ps := filter (fun p => memz p (map fst pm2) || negb (memz p b)) a in
+            Some (with_reusedset [] m, map (fun p => (p, assoc_nat p pm2)) ps, pm2)
+          end in
+      match start with
+      | None => (with_gens (upd_nth g gen_dead (gens m)) m, Exc IndexError)
+      | Some (m0, ls, pm) =>
+        let '(ls1, os1, pm1, r) := gen_loop ls (objs m0) pm in
+        match r with
+        | Val (Some i) =>
+          (with_gens (upd_nth g {| g_started := true; g_done := false; g_ls := ls1; g_pm := pm1 |} (gens m0))
+                     (with_objs os1 m0), Val (RObj i))
+        | Val None =>                                           (* finally: _pmap = pmap *)
+          (with_gens (upd_nth g gen_dead (gens m0)) (with_pmap pm1 (with_objs os1 m0)), Val RStop)
+        | Exc e =>
+          (with_gens (upd_nth g gen_dead (gens m0)) (with_pmap pm1 (with_objs os1 m0)), Exc e)
+        | OutOfModel =>
+          (with_gens (upd_nth g gen_dead (gens m0)) (with_pmap pm1 (with_objs os1 m0)), OutOfModel)
+        end
+      end
   end.
 
 (* one public call: new module/object state, outcome, system calls attempted (in order) *)
@@ -515,6 +607,13 @@ Definition mcall (m : mstate) (c : call) : mstate * outcome res * list sysc :=
     end
   | BootTime => let '(m1, b) := do_boot_time m in (m1, Val (RInt b), [])
   | ProcIter => let '(m1, r) := proc_iter m in (m1, r, [])
+  | Wait o =>
+    match nth_error (objs m) o with
+    | None => (m, OutOfModel, [])
+    | Some x => let '(x1, r) := do_wait x in (with_objs (upd_nth o x1 (objs m)) m, r, [])
+    end
+  | IterStart => (with_gens (gens m ++ [gen0]) m, Val (RGen (length (gens m))), [])
+  | IterNext g => let '(m1, r) := iter_next m g in (m1, r, [])
   end.
 
 End WithKernel.
